@@ -536,7 +536,7 @@ def run(rep, tier, seed):
     chunks = [(seqs[i::64],) for i in range(64)]
     hn = 0
     fails = []
-    for n, fl in pmap(_hist_work, chunks):
+    for n, fl in dyn.pmap_w('hist', _hist_work, chunks):
         hn += n
         fails.extend(fl)
     dyn.report_fails(rep, fails, replay)
@@ -565,3 +565,6 @@ def run(rep, tier, seed):
         'components; history case = one sequence of questions (from cleared caches / after an overflowing prologue); '
         'non-trivial = grid has non-floor cells, or any history',
     )
+
+
+WORKERS = {'hist': _hist_work}
